@@ -433,14 +433,37 @@ def run(prog, check):
             env, conds = {}, []
             for i_, nid in enumerate(path[:-1]):
                 nd = gb.nodes[nid]
-                if nd.kind == 'stmt' and isinstance(nd.ast, ast.Assign) and len(nd.ast.targets) == 1 and isinstance(nd.ast.targets[0], ast.Name):
+                out_labs_ = [lab for b_, lab in gb.succ[nid] if b_ == path[i_ + 1]]
+                failed_ = bool(out_labs_) and out_labs_[0] in ('exc', 'raise')
+                if nd.kind == 'stmt' and isinstance(nd.ast, ast.Assign) and len(nd.ast.targets) == 1 and isinstance(nd.ast.targets[0], ast.Name) and \
+                        isinstance(nd.ast.value, ast.Call) and isinstance(nd.ast.value.func, ast.Attribute) and nd.ast.value.func.attr == 'index' and \
+                        isinstance(nd.ast.value.func.value, ast.Name) and len(nd.ast.value.args) == 1 and getattr(nd.ast.value.args[0], 'value', None) == 't':
+                    # p = X.index('t'): raises ValueError exactly when 't' is not in X; otherwise p is the position of 't'
+                    lst_ = nd.ast.value.func.value.id
+                    cur_ = env.get(lst_, ('?', lst_))
+                    conds.append((cur_, not failed_))
+                    if not failed_:
+                        env[nd.ast.targets[0].id] = ('pos-of-t', lst_)
+                elif nd.kind == 'stmt' and isinstance(nd.ast, ast.Delete) and len(nd.ast.targets) == 1 and isinstance(nd.ast.targets[0], ast.Subscript) and \
+                        isinstance(nd.ast.targets[0].value, ast.Name) and isinstance(nd.ast.targets[0].slice, ast.Name) and \
+                        env.get(nd.ast.targets[0].slice.id) == ('pos-of-t', nd.ast.targets[0].value.id):
+                    nm_ = nd.ast.targets[0].value.id
+                    env[nm_] = ('L-t',) if env.get(nm_) == ('L',) else ('?', 'del on %s' % (env.get(nm_),))
+                elif nd.kind == 'stmt' and isinstance(nd.ast, ast.Assign) and len(nd.ast.targets) == 1 and isinstance(nd.ast.targets[0], ast.Name):
                     env[nd.ast.targets[0].id] = symv(nd.ast.value, env)
                 elif nd.kind == 'stmt' and isinstance(nd.ast, ast.Expr) and isinstance(nd.ast.value, ast.Call) and \
                         isinstance(nd.ast.value.func, ast.Attribute) and isinstance(nd.ast.value.func.value, ast.Name):
                     c = nd.ast.value
                     nm = c.func.value.id
                     cur = env.get(nm, ('?', nm))
-                    if c.func.attr == 'remove' and len(c.args) == 1 and getattr(c.args[0], 'value', None) == 't':
+                    out_labs = [lab for b_, lab in gb.succ[nid] if b_ == path[i_ + 1]]
+                    failed = bool(out_labs) and out_labs[0] in ('exc', 'raise')
+                    if c.func.attr in ('remove', 'index') and len(c.args) == 1 and getattr(c.args[0], 'value', None) == 't' and failed:
+                        # list.remove / list.index raise ValueError exactly when 't' is not in the list
+                        conds.append((cur, False))
+                    elif c.func.attr == 'remove' and len(c.args) == 1 and getattr(c.args[0], 'value', None) == 't':
+                        if cur == ('L',):
+                            conds.append((cur, True))
                         env[nm] = ('L-t',) if cur == ('L',) else ('?', 'remove on %s' % (cur,))
                     elif c.func.attr == 'insert' and len(c.args) == 2 and getattr(c.args[0], 'value', None) == 0 and \
                             getattr(c.args[1], 'value', None) == 't':
